@@ -134,7 +134,7 @@ Expected(c) ==
 Unspecified(c) == \/ c.p = "*" /\ c.op = "len"                 \* ${#*} is unspecified by POSIX
                   \/ c.p = "*" /\ c.op \in {"%", "%%", "#", "##"}   \* so is pattern removal applied to $*
                   \* "${@ op word}" without positional parameters: POSIX fixes "zero fields" only for "$@" itself
-                  \/ c.p = "@" /\ Len(c.args) = 0 /\ c.q = "dq" /\ c.op # ""
+                  \/ c.p = "@" /\ Len(c.args) = 0 /\ c.q = "dq" /\ c.op \notin {"", "len", ":-"}     \* (the length is 0; with :- the default word is used and is the result)
 
 Holds(rec) ==
     LET e == Expected(rec.c) o == rec.obs IN
